@@ -210,5 +210,5 @@ def cases(draw, prof):
 
 PROFILE = specgen.profile(depth=2, domain_rate=0.01)
 PARTS = [
-    Part("layers", check, strategy=lambda ctx: cases(PROFILE), budget={"quick": 150, "thorough": 2000}),
+    Part("layers", check, strategy=lambda ctx: cases(PROFILE), budget={"quick": 450, "thorough": 2000}),
 ]
